@@ -272,7 +272,7 @@ func (c *check) Init(tier string, seed int64) engine.Space {
 			}
 		}
 	}
-	budget := 170.0
+	budget := 260.0
 	if tier == "thorough" {
 		budget = 1500
 	}
